@@ -15,4 +15,13 @@ JOBS = [
      "harness": "harness/leafs.c", "defs": ["L_static_entry=1"],
      "repo_src": ["lib/crypt-static.c", "lib/crypt-gensalt-static.c"],
      "unwind": 4, "mem_gb": 2, "timeout": 120, "no_native": True},
+    {"name": "leaf_be32_vect", "props": ["C04", "C16"], "functions": ["cpu_to_be32_vect", "cpu_to_be32"],
+     "harness": "harness/leafs.c", "defs": ["L_be32_vect=1"],
+     "loops": [{"function": "cpu_to_be32_vect", "anchor": "while (len)", "span": 12,
+                "invariant": "len <= g_len && dst == g_dst + 4 * (g_len - len) && src == g_src + (g_len - len) && "
+                             "(g_k >= g_len - len || (g_dst[4 * g_k] == (unsigned char) (g_src[g_k] >> 24) && g_dst[4 * g_k + 1] == (unsigned char) (g_src[g_k] >> 16) "
+                             "&& g_dst[4 * g_k + 2] == (unsigned char) (g_src[g_k] >> 8) && g_dst[4 * g_k + 3] == (unsigned char) g_src[g_k]))",
+                "assigns": "len, dst, src, __CPROVER_object_whole(dst)",
+                "decreases": "len"}],
+     "unwind": 4, "mem_gb": 4, "timeout": 300, "no_native": True},
 ]
